@@ -1,6 +1,6 @@
 \* G: fault enumeration over the corpus bases (IOEnv.IDENT_BASES), parameters in IOEnv.IDENT_PARAMS.
 \* BFS: maxfaults=1 enumerates every single fault (plus the intact bases and the random-string classes);
-\* minfaults=maxfaults=2 enumerates every pair of faults of a strided sub-space.
+\* maxfaults=2 enumerates every pair of faults of a strided sub-space. The sequences are drawn in Init.
 CONSTANTS
   Dev = {}
   Mode = "gen"
